@@ -14,7 +14,7 @@ import (
 )
 
 func usage() {
-	fmt.Fprintln(os.Stderr, "usage: verif check <id> [--tier quick|thorough] | verif replay <file> | verif instrument <dir> | verif warm")
+	fmt.Fprintln(os.Stderr, "usage: verif check <id> [--tier quick|thorough] | verif replay <file> | verif instrument <dir> | verif warm | verif selftest determinism [ids] | verif survey <id>")
 	os.Exit(2)
 }
 
@@ -118,6 +118,18 @@ func main() {
 		}
 		e := newEnv()
 		code := replay(e, os.Args[2])
+		cleanup(e)
+		os.Exit(code)
+	case "selftest":
+		if len(os.Args) < 3 || os.Args[2] != "determinism" {
+			usage()
+		}
+		e := newEnv()
+		ids := os.Args[3:]
+		if len(ids) == 0 {
+			ids = []string{"C05", "C06", "C08", "C09", "C18"}
+		}
+		code := driver.SelfTestDeterminism(e, ids, 12)
 		cleanup(e)
 		os.Exit(code)
 	case "warm":
